@@ -30,7 +30,7 @@ Definition seg_acl_preserves := ConcMisc.seg_acl_preserves.
 Section Assembly.
   Theorem cinv_step cf s e : fixed cf -> CInv s -> CInv (fst (cstep cf s e)).
   Proof.
-    intros F I. destruct e as [c u x|c r|t ok hint|c hint|t].
+    intros F I. destruct e as [c u x|c r|t ok hint|c hint|t|ts pl].
     - now apply cinv_identify.
     - now apply cinv_req.
     - destruct (tlookup t (tasks s)) as [k|] eqn:Hl.
@@ -41,6 +41,7 @@ Section Assembly.
       + unfold cstep. rewrite Hl. exact I.
     - now apply cinv_hangup.
     - now apply cinv_drop.
+    - exact I.      (* a pushed private payload changes nothing *)
   Qed.
 
   Lemma cinv_run cf es : fixed cf -> forall s, CInv s -> CInv (fst (crun cf s es)).
